@@ -65,7 +65,10 @@ pub fn run(ctx: &mut Ctx) {
         cfgs.retain(|c| !c.elem.heap);
     }
     let thorough = ctx.thorough();
-    let l = if thorough { 7 } else { 4 };
+    let mut l = if thorough { 7 } else { 5 };
+    if let Some(x) = std::env::args().collect::<Vec<_>>().windows(2).find(|w| w[0] == "--L").and_then(|w| w[1].parse::<usize>().ok()) {
+        l = x;
+    }
     match ctx.prop.as_str() {
         "C01" => {
             fam::exhaustive(ctx, "elem", &cfgs, l, true, &fam::elem_seqs);
